@@ -91,7 +91,12 @@ PPCases == {[G |-> Gate(r, Empty, Empty), pp |-> k] : r \in PPGroups, k \in PPKi
 \* applied items and the field tracking of the enclosing pipeline)
 NestCases == {Gate(r, Empty, Empty) : r \in RuleGroups} \cup {Gate(Empty, i, Empty) : i \in ItemGroups}
              \cup {Gate(Empty, Empty, f) : f \in FieldGroups}
-ASSUME LET S == SetToSeq(Cases)
+\* words that are NOT linking words where one is expected (upper case, another operator, the empty word)
+BadWords == {"OR", "And", "xor", "any", ""}
+BadLinkCases == {Gate(Grp(<<RulePool[21], RulePool[22]>>, w, EId(1), FALSE), Empty, Empty) : w \in BadWords}
+                \cup {Gate(Empty, Grp(<<ItemPool[1], ItemPool[3]>>, w, EId(1), FALSE), Empty) : w \in BadWords}
+                \cup {Gate(Empty, Empty, Grp(<<FieldPool[1], FieldPool[3]>>, w, EId(1), FALSE)) : w \in BadWords}
+ASSUME LET S == SetToSeq(Cases \cup BadLinkCases)
            P == SetToSeq(PPCases)
            Nn == SetToSeq(IF Quick THEN RandomSubset(1500, NestCases) ELSE NestCases)
        IN  ndJsonSerialize(IOEnv.VERIF_OUT, [i \in 1..Len(S) |-> [id |-> i, G |-> S[i], pp |-> "-", nest |-> FALSE]]
